@@ -50,10 +50,10 @@ CHECKS = {
  "C18": ("exploration", "exhaustive enumeration of command lines x scripted printers on the real ipputil binary built from /repo, observed at a loopback peer",
          "Option lists of length 0..2 (3) over 12 option texts x job/user names, 24 typing witnesses (zero-padded / negative / out-of-range decimals, look-alikes) judged by an independent decimal rule; Print-Job answered with a sweep of 825 status codes; the Print-Job connection reset with later connections served (every content size, file and stdin); contents incl. BufReader boundaries and MiBs, file and stdin; all printer answer scripts (ready / stopped / blocked / IPP error / HTTP error / cut) with and without the state check. Oracle: request sequence, typed options, document octets, exit status.",
          "The binary is rebuilt from /repo's working tree on every run; runs are real processes against real sockets.", "DESIGN.md §5 C18"),
- "C13": ("exploration", "complete product of 62 720 target URIs through the helper and every constructor; oracle = string-level RFC 3986 splitter R3",
+ "C13": ("exploration", "complete product of 80 640 target URIs through the helper and every constructor; oracle = string-level RFC 3986 splitter R3",
          "The whole D-uri product is canonicalised by the helper (plus idempotence) and by the raw constructor, a sub-product by all builders; the printer-uri never contains user-info or query and keeps host, port and path.",
          "URIs that http::Uri rejects are outside the domain.", "DESIGN.md §5 C13"),
- "C14": ("exploration", "complete product of 62 720 target URIs through the cfg-guarded hook (oracle = R3) plus complete enumeration of 4 480 target shapes x client configurations observed on the wire by a loopback peer",
+ "C14": ("exploration", "complete product of 80 640 target URIs through the cfg-guarded hook (oracle = R3) plus complete enumeration of 4 480 target shapes x client configurations observed on the wire by a loopback peer",
          "ipp->http, ipps->https, default port 631 for both, everything else unchanged, http/https untouched - over the whole D-uri product; and both clients really contact that URL (request target, Host header, one connection) for every combination of scheme, host, user-info, path and query (with '@', ':' and '/' inside them) and client configuration (plain, basic_auth, custom header, Authorization header). Port-less ipps -> 443 is the recorded known finding KF-C14-1 (pinned by the repository's own test).",
          "Hook verif_transport_url is a pass-through to the private mapper; the wire half only reaches hosts that resolve to the loopback interface and explicit ports.", "DESIGN.md §5 C14"),
  "C15": ("exploration", "exhaustive enumeration of all two-phase periodic input families over the token alphabet x doubling sizes; counting allocator with budget + callgrind instruction counts",
